@@ -12,7 +12,7 @@ F32 = fbparse.T.FLOAT32
 
 def plan(tier, seed):
   p = c01.plan(tier, seed)
-  p['cases'] = c01.cases(tier, sigrev=True, blk=False)  # blockwise excluded by C02
+  p['cases'] = c01.cases(tier, sigrev=True, blk=False, n4=False)  # blockwise excluded by C02
   p['rule'] = ('E1 (same universe as C01): for every returned model, delete '
                'inserted QUANTIZE/DEQUANTIZE ops, contract output->input and '
                'compare with the input IR: operators/order/opcodes/packed '
